@@ -277,6 +277,19 @@ func c07TwoParty(k *core.Case) {
 	k.Eval(1)
 	pn := core.Try(func() {
 		ini := newInfoKey(e, i, p, d)
+		if k.Index%5 == 3 {
+			// the SA record made an offer with another key size of the same cipher before (NO_PROPOSAL_CHOSEN retry, a
+			// template adjusted per peer): only EncrInfo changes between the two ToProposal calls
+			mine := ini.EncrInfo
+			ini.EncrInfo = newInfoKey((e+1+k.Index/5%2)%3, i, p, d).EncrInfo
+			_, _ = ini.ToProposal()
+			if k.Index/10%2 == 1 {
+				cp := *ini
+				ini = &cp
+			}
+			ini.EncrInfo = mine
+			k.Count("sa_record_offered_another_key_size_before", 1)
+		}
 		secret, err := security.GenerateRandomNumber()
 		if err != nil {
 			k.Violate("error", "GenerateRandomNumber-error", err.Error(), w)
@@ -632,6 +645,12 @@ func c08History(k *core.Case) {
 					k.Count("child_object_copied_from_a_template", 1)
 				}
 			}
+		}
+		if k.R.Chance(1, 3) {
+			// the offer for this Child SA is built from the very object that is keyed afterwards
+			_, _ = a.ToProposal()
+			pokeAccessors(a)
+			k.Count("child_object_made_its_offer_before_being_keyed", 1)
 		}
 		var e1, e2 error
 		k.Eval(1)
